@@ -74,7 +74,10 @@ fn queries_from_set_expr<'a>(set_expr: &'a ast::SetExpr) -> Vec<&'a ast::Query> 
             .iter()
             .flat_map(|table_with_joins| TableWithJoins(table_with_joins).queries())
             .collect(),
-        ast::SetExpr::SetOperation { .. } => vec![],
+        ast::SetExpr::SetOperation { left, right, .. } => queries_from_set_expr(left.as_ref())
+            .into_iter()
+            .chain(queries_from_set_expr(right.as_ref()))
+            .collect(),
         // No sub-query is visited in the other kinds of query: their translation reports them as not supported
         _ => vec![],
     }
